@@ -52,11 +52,13 @@ def gen_case(rnd, tier: str, i: Any) -> Dict[str, Any]:
         p["ops_pool"] = pool
         tr = gen_sim.gen_trace(rnd, **p)
         gen_sim.drop_events(rnd, tr, p_launch=rnd.choice([0, 0, 0.1]), p_kernel=rnd.choice([0, 0, 0.1]))
+        if not autograd and p["n_threads"] == 1 and rnd.random() < 0.3:
+            gen_sim.twin_thread(tr)             # a second worker thread running the same operators at the same instants
         files[f"rank{r}.json"] = tr
     names = pool * 3 + ["cudaLaunchKernel", "aten::nonexistent", "ProfilerStep", "aten::"] + (rnd.sample(META_QUERIES, 4) if meta else [])
     if autograd:
         names += ["autograd::engine::evaluate_function", "## backward ##", "ProfilerStep", "Backward0", f"ProfilerStep#{first_step}"] * 2
-    qs = [{"op": rnd.choice(names), "min_len": rnd.choice([1, 1, 1, 2, 2, 3, 5]), "top_k": rnd.choice([1, 5]), "rank": rnd.randrange(n_ranks)}
+    qs = [{"op": rnd.choice(names), "min_len": rnd.choice([1, 1, 1, 2, 2, 3, 5, 0]), "top_k": rnd.choice([1, 5]), "rank": rnd.randrange(n_ranks)}
           for _ in range(rnd.randint(2, 5 if n_ranks > 1 else 4))]
     return {"files": files, "queries": qs}
 
